@@ -255,6 +255,35 @@ def builtin(it, name):
     return table.get(name, NotImplemented)
 
 
+class RowLabel:
+    """the index label of row `i` of a table (whatever its value)"""
+
+    def __init__(self, i):
+        self.i = i
+
+    def __repr__(self):
+        return f"<label of row {self.i}>"
+
+
+class IndexVals:
+    """DataFrame.index: only positional access to single labels is modelled"""
+
+    def __init__(self, n):
+        self.n = n
+        self.values = self
+
+    def abs_getitem(self, it, k):
+        if isinstance(k, int) and not isinstance(k, bool) and -self.n <= k < self.n:
+            return RowLabel(k % self.n)
+        return Opaque("index[]")
+
+    def abs_len(self):
+        return NRows(self.n) if self.n else 0
+
+    def __repr__(self):
+        return "<index>"
+
+
 class ColList(list):
     def drop(self, labels):
         labels = [labels] if isinstance(labels, str) else list(labels)
@@ -262,6 +291,9 @@ class ColList(list):
 
     def tolist(self):
         return list(self)
+
+    def get_loc(self, name):
+        return self.index(name)
 
     def isin(self, other):
         return [c in other for c in self]
@@ -374,6 +406,10 @@ def load_subscript(it, obj, k):
                 return d.cols[col].v[rows]
         if isinstance(k, Vec):
             return df_select(d, k)
+        if isinstance(k, (list, tuple)) and all(isinstance(i, int) and not isinstance(i, bool) for i in k):
+            out = DF({c: Vec([v.v[i] for i in k], aligned=True) for c, v in d.cols.items()}, len(k), "subset")
+            out.exact = getattr(d, "exact", False)
+            return out
         raise Undecided(f".{obj.name}[{k!r}]")
     if isinstance(obj, BoundMethod) and obj.name in ("iat", "iloc", "at", "loc") and isinstance(obj.obj, Vec):
         v = obj.obj
@@ -408,6 +444,8 @@ def load_subscript(it, obj, k):
             return _maskload(obj, k)
         if isinstance(k, slice):
             return Vec(obj.v[k])
+        if isinstance(k, (list, tuple)) and all(isinstance(i, int) and not isinstance(i, bool) for i in k):
+            return Vec([obj.v[i] for i in k])
         raise Undecided(f"vector index {k!r}")
     if isinstance(obj, Row):
         if isinstance(k, (int, str, slice)):
@@ -461,9 +499,20 @@ def store_subscript(it, obj, k, v, aug=False):
             mask, col = None, k
         if isinstance(mask, slice) and mask == slice(None, None, None):
             mask = None
+        if isinstance(col, int) and not isinstance(col, bool):
+            col = [c for c in obj.cols if not c.startswith("__")][col]          # .iloc[row, column position]
         if not isinstance(col, str):
             raise Undecided(f"table store with key {k!r}")
         n = obj.n
+        if isinstance(mask, RowLabel):
+            mask = mask.i
+        if isinstance(mask, int) and not isinstance(mask, bool):
+            if col not in obj.cols or not -n <= mask < n:
+                raise Raised("IndexError", f"cell store [{mask}, {col}]")
+            newcol = list(obj.cols[col].v)
+            newcol[mask] = v
+            obj.cols[col] = Vec(newcol, aligned=True)
+            return
         if isinstance(v, (list, tuple)) and len(v) == n and not isinstance(v, str):
             v = Vec(v)
         if isinstance(v, Vec) and v.fresh and obj.index != "range":
@@ -532,7 +581,7 @@ def value_attr(it, obj, attr):
         if attr == "columns":
             return ColList(c for c in obj.cols if not c.startswith("__"))
         if attr == "index":
-            return Opaque("index")
+            return IndexVals(obj.n)
         if attr == "empty":
             return obj.n == 0
         if attr in obj.cols:
@@ -856,7 +905,9 @@ def df_method(it, obj, name, args, kw):
         for k, v in kw.items():
             if isinstance(v, (Closure,)):
                 v = it.call(v, [d], {})
-            d.cols[k] = Vec(bcast(v, d.n))
+            if isinstance(v, (list, tuple)) and len(v) == d.n:
+                v = Vec(v)
+            d.cols[k] = Vec(bcast(v, d.n), aligned=True)
         return d
     if name == "itertuples":
         fields = [c for c in obj.cols if not c.startswith("__")]
